@@ -44,8 +44,17 @@ var alphabet = append(ls.SenderAlphabet(5),
 	ls.SMsg{Name: "SysExLeftOpen", Bytes: []byte{0xF0, 0x01}},
 )
 
-var tempi = []float64{120, 20, 61.5, 400}
-var resolutions = []smf.MetricTicks{960, 24, 15360}
+var tempi = []float64{120, 20, 61.5, 400, 1000}
+var resolutions = []smf.MetricTicks{960, 24, 15360, 0}
+
+// eff: the resolution a MetricTicks value stands for (0 is documented as 960)
+func eff(res smf.MetricTicks) float64 {
+	if res == 0 {
+		return 960
+	}
+	return float64(res)
+}
+
 var gaps = []int32{0, 1, 10, 1000}
 
 type arrived struct {
@@ -190,6 +199,13 @@ func record(seq []ls.SMsg, sl []int32, bpm float64, res smf.MetricTicks, via str
 		report("record:first-event-not-tempo:"+via, seq, sl, bpm, res, via, "track does not start with the tempo event at delta 0")
 		return
 	}
+	// the event is a set-tempo event of the format (FF 51 03 and three bytes of
+	// microseconds per quarter note) and says the recording tempo
+	if m := evs[0].Msg; len(m) != 6 || m[0] != 0xFF || m[1] != 0x51 || m[2] != 0x03 ||
+		math.Abs(float64(int(m[3])<<16|int(m[4])<<8|int(m[5]))-60000000/bpm) > 1 {
+		report("record:tempo-event-malformed:"+via, seq, sl, bpm, res, via, fmt.Sprintf("the tempo event of a recording at %v BPM is % X", bpm, m))
+		return
+	}
 	// 2. channel messages stored unchanged, in order, with faithful ticks
 	var wantCh []arrived
 	for _, a := range arr {
@@ -212,7 +228,7 @@ func record(seq []ls.SMsg, sl []int32, bpm float64, res smf.MetricTicks, via str
 				report("record:channel:altered:"+feat, seq, sl, bpm, res, via, fmt.Sprintf("stored % X, arrived % X", e.Msg, wantCh[ci].msg))
 				return
 			}
-			exact := float64(wantCh[ci].ts) / 1000 * bpm / 60 * float64(res)
+			exact := float64(wantCh[ci].ts) / 1000 * bpm / 60 * eff(res)
 			if math.Abs(float64(tick)-exact) > float64(stored)+1e-6 {
 				report("record:timing:"+feat, seq, sl, bpm, res, via, fmt.Sprintf("message %d (% X) stored at tick %d, its time stamp %d ms converts to %.2f", ci, e.Msg, tick, wantCh[ci].ts, exact))
 				return
@@ -481,7 +497,7 @@ func space(first int) {
 					for _, res := range resolutions {
 						// a pause whose tick count exceeds the format's 28-bit maximum cannot be
 						// stored in any valid SMF: outside the domain (DESIGN.md 0.2, C13)
-						if float64(g1+g2)/1000*bpm/60*float64(res) > 0x0FFFFFFF { // (a skipped message carries its time over)
+						if float64(g1+g2)/1000*bpm/60*eff(res) > 0x0FFFFFFF { // (a skipped message carries its time over)
 							ctx.Add("long_pauses_beyond_format_maximum_skipped", 1)
 							continue
 						}
@@ -603,7 +619,7 @@ func main() {
 	ctx.Set("gaps_ms", gaps)
 	ctx.Sample(map[string]interface{}{"messages": []string{"NoteOn0a", "Start", "NoteOff0"}, "gaps_ms": []int{0, 10, 1000}, "bpm": 61.5, "resolution": 960})
 	ctx.Guard(ctx.NontrivialCount() > 1000, "mixed channel/non-channel recordings missing: %d", ctx.NontrivialCount())
-	ctx.Finish("message sequences up to depth 3/4 over 21 messages (channel kinds, real-time, system common, sysex, active sensing, stray data byte, stray F7), every assignment of inter-arrival gaps {0,1,10,1000} ms, tempi {20,61.5,120,400} x resolutions {24,960,15360} (full product for depth <= 2, axes for depth 3), Track.RecordFrom and SMF.RecordFrom; non-trivial = recordings in which channel messages arrive together with other message classes")
+	ctx.Finish("message sequences up to depth 3/4 over 21 messages (channel kinds, real-time, system common, sysex, active sensing, stray data byte, stray F7), every assignment of inter-arrival gaps {0,1,10,1000} ms, tempi {20,61.5,120,400,1000} x resolutions {0 (the default),24,960,15360} (full product for depth <= 2, axes for depth 3), Track.RecordFrom and SMF.RecordFrom; non-trivial = recordings in which channel messages arrive together with other message classes")
 }
 
 func replay() {
